@@ -21,6 +21,28 @@ CHECKS = {
         technique="Kani/CBMC bounded model checking of macro expansions (symbolic inputs and schedules), closed-form oracle, native replay"),
 }
 
+CHECKS.update({
+    "C03": dict(
+        level="model_checking", ref="3 (C03)",
+        text="Bounded model checking of the real expansions of all eight macro kinds: an event clock stamps every initial expression, callback, block capture and async "
+             "enter/exit; for every generated multi-step program one CBMC query over all payloads and ALL schedules of the model (early/late placement of every thread, "
+             "pending count of every gate, eager/lazy first poll of every task) shows every item of step k+1 is stamped after the last item of step k of every active branch, "
+             "and the result shows each branch continued from its own previous value.",
+        technique="Kani/CBMC bounded model checking of macro expansions with symbolic schedules (thread/task/gate models), event-order monitors"),
+    "C04": dict(
+        level="model_checking", ref="3 (C04)",
+        text="Bounded model checking: for every depth profile (<= 3x3 quick, <= 4x3 thorough) under join!/try_join!/join_spawn!/try_join_spawn! and listed profiles under the four async kinds, "
+             "same-typed branches xor a symbolic payload in at every position; one CBMC query per packed group shows for ALL payloads that element i of the result (and argument i of a "
+             "handler that reverses its arguments) is branch i's own final value, with and without handler and `let` patterns.",
+        technique="Kani/CBMC bounded model checking of macro expansions, symbolic payload tagging"),
+    "C06": dict(
+        level="model_checking", ref="3 (C06)",
+        text="Bounded model checking of try-macro expansions with counters on every initial expression, callback, second action, block capture and handler: for ALL placements of failures "
+             "(and thread schedules / gate counts) an item of step s runs exactly once iff no earlier step failed and never after a failed step; the handler runs iff nothing failed; "
+             "in sync/thread kinds the failing step runs to its end in every active branch.",
+        technique="Kani/CBMC bounded model checking of macro expansions, execution-count monitors vs closed-form failing step"),
+})
+
 NOT_APPLICABLE = {
     "C15": "Quantifies over token streams fed to the expander and has no run-time dimension; deciding it needs symbolic execution of JoinInputDefault::parse + generate_join, "
            "and Kani 0.68 ICEs on proc_macro2::Ident::new / does not finish pushing one token into a TokenStream in 900 s (DESIGN.md 1.1, 4). A hand model of the parser would not be the repository's code.",
